@@ -136,6 +136,9 @@ class ShmClient(Harness):
                             if key not in written:
                                 raise Violation("conflict-for-a-fresh-key", key)
                             continue
+                        except Exception as e:
+                            # there is no memory pressure here (capacity 64, a few bytes per dataset): nothing may be refused
+                            raise Violation("allocation-that-fits-refused", f"{key} ({len(val)} bytes of 64): {type(e).__name__}: {e}")
                         if key in written:
                             raise Violation("second-writer-admitted", f"{key} allocated twice")
                         buf.view()[: len(val)] = val
